@@ -127,7 +127,8 @@ func openStore(dir string, ver int) *store.ImmuStore {
 		}
 		return time.Unix(1700000000+int64(n+1)*7, 0)
 	}
-	opts := storeh.SmallOptions().WithWriteTxHeaderVersion(ver).WithTimeFunc(clock).WithMaxActiveTransactions(32)
+	opts := storeh.SmallOptions().WithWriteTxHeaderVersion(ver).WithTimeFunc(clock).WithMaxActiveTransactions(32).
+		WithAHTOptions(store.DefaultAHTOptions().WithWriteBufferSize(4096).WithSyncThld(64))
 	s, err := store.Open(dir, opts)
 	must(err)
 	st = s
